@@ -1,18 +1,27 @@
 #!/bin/bash
-# usage: lib/muttest.sh <worktree-with-patch-applied> <ID> [seed]   (development helper)
-# Builds a private copy of the harness against the given worktree instead of /repo and runs one monitor.
+# usage: lib/muttest.sh <patch.diff|none> <ID> [seed] [budget]   (development helper, not a registered check)
+# Applies the patch to the scratch worktree /tmp/mutrepo (moved to /repo's HEAD first), builds a private copy of
+# the harness against it (incremental), runs one monitor, and restores the worktree. The official way to run a
+# check against a seeded change is `git -C /repo apply <patch>; ./check ID; git -C /repo checkout -- .`; this
+# helper exists so that seeded changes can be tried while /repo itself is busy.
 set -u
-WT=$1; ID=$2; SEED=${3:-1}
-TAG=$(basename $WT)
-H=/tmp/mh-$TAG
+PATCH=$1; ID=$2; SEED=${3:-1}; BUDGET=${4:-120}
+H=/tmp/mh
 mkdir -p $H
+git -C /tmp/mutrepo checkout -q -- .
+git -C /tmp/mutrepo checkout -q --detach "$(git -C /repo rev-parse HEAD)" 2>/dev/null
 rsync -a --delete --exclude target /verif/harness/ $H/harness/
-sed -i "s|\"/repo/|\"$WT/|g" $H/harness/gxv/Cargo.toml $H/harness/gxv-miri/Cargo.toml
-cp $WT/Cargo.lock $H/harness/Cargo.lock
+sed -i "s|\"/repo/|\"/tmp/mutrepo/|g" $H/harness/gxv/Cargo.toml $H/harness/gxv-miri/Cargo.toml
+cp /tmp/mutrepo/Cargo.lock $H/harness/Cargo.lock
+if [ "$PATCH" != "none" ]; then
+  if ! git -C /tmp/mutrepo apply --3way "$PATCH" >/dev/null 2>&1; then
+    if ! git -C /tmp/mutrepo apply "$PATCH"; then echo "PATCH DOES NOT APPLY"; exit 2; fi
+  fi
+fi
 cd $H/harness
 CARGO_NET_OFFLINE=true CARGO_TARGET_DIR=$H/target cargo build --offline --profile verif -p gxv 2>&1 | grep -E "^error" -A10 | head -30
 mkdir -p $H/replays
-GXV_REPLAY_DIR=$H/replays GXV_BUDGET_S=${GXV_BUDGET_S:-120} $H/target/verif/gxv $ID --tier quick --seed $SEED --out $H/$ID.json 2>$H/$ID.err
+GXV_REPLAY_DIR=$H/replays GXV_BUDGET_S=$BUDGET $H/target/verif/gxv $ID --tier quick --seed $SEED --out $H/$ID.json 2>$H/$ID.err
 python3 - <<PY
 import json
 d=json.load(open("$H/$ID.json"))
@@ -22,3 +31,4 @@ for v in d["violations"]:
 for i in d["inconclusive"]:
     print("  INCONCLUSIVE", i[:160])
 PY
+git -C /tmp/mutrepo reset -q --hard
